@@ -1076,6 +1076,15 @@ def reader_pairs_avro(g, cat):
     pairs.append((wide3, wide3, "proj"))
     for t in pr:
         pairs.append((wide3, t, "proj"))
+    # projections that drop nullable fields (the skipped value is a union, null first or second)
+    wideu = g.struct("verifPu_Full", [Field("A", B("int64")), Field("S", P(B("string"))), Field("I", P(B("int64"))), Field("O", B("string"), 'json:"O,omitempty"'), Field("E", B("int64"))])
+    for t in [
+        g.struct("verifPu_NoS", [Field("A", B("int64")), Field("I", P(B("int64"))), Field("O", B("string"), 'json:"O,omitempty"'), Field("E", B("int64"))]),
+        g.struct("verifPu_NoI", [Field("A", B("int64")), Field("S", P(B("string"))), Field("O", B("string"), 'json:"O,omitempty"'), Field("E", B("int64"))]),
+        g.struct("verifPu_NoO", [Field("A", B("int64")), Field("S", P(B("string"))), Field("I", P(B("int64"))), Field("E", B("int64"))]),
+        g.struct("verifPu_OnlyE", [Field("E", B("int64"))]),
+    ]:
+        pairs.append((wideu, t, "projunion"))
     return pairs
 
 
@@ -1391,7 +1400,7 @@ def main():
         ga.harness_rt(cata[n], "wide", wide=True)
     for wt, tt, group in reader_pairs_avro(ga, cata):
         ga.harness_read(wt, tt, group)
-        if natural(wt).has_union() and group in ("same", "indir"):
+        if natural(wt).has_union() and group in ("same", "indir", "projunion"):
             ga.harness_read(wt, tt, group, swap=True)
     # wide (full 64-bit) values into narrower targets: the fit clause
     for tn in ("verifL_Int16", "verifL_Int32"):
